@@ -40,8 +40,11 @@ def first_model_atoms(text):
     seen = set()
     bad = []
     have_coord = False
+    n_ter = 0
     for raw in text.splitlines():
         rec = raw[0:6].strip()
+        if rec == "TER":
+            n_ter += 1
         if rec == "ENDMDL" and have_coord:
             break
         if rec == "MODEL" and have_coord:
@@ -52,7 +55,10 @@ def first_model_atoms(text):
             if a is None:
                 bad.append(raw)
                 continue
-            ident = (a["chain"], a["res_seq"], a["icode"], a["name"])
+            # chains without an identifier are delimited by TER records
+            a["segment"] = n_ter if a["chain"] == "" else None
+            ident = (a["chain"], a["segment"], a["res_seq"], a["icode"],
+                     a["name"])
             if ident in seen:
                 continue
             seen.add(ident)
